@@ -203,7 +203,7 @@ class C10(ProgramCheck):
                 # inside a sequential block / loop body by a *sequential block*, which Jaqal cannot nest there.  It is
                 # identified by that shape in the IR and reported against the canonical minimal input, provided that
                 # input fails in the same way right now; anything else is reported against its own input.
-                if nested_expanded_subcircuit(c.body, top=True) and self.canonical_fails():
+                if (nested_expanded_subcircuit(c.body, top=True) or any(nested_expanded_subcircuit(m.body) for m in c.macros.values())) and self.canonical_fails():
                     ctx.fail("not-legal", "after %s the generated text is rejected: %s" % ("".join(path) or "-", ex), case=CANON_CASE)
                 else:
                     ctx.fail("not-legal", "after %s the generated text is rejected: %s" % ("".join(path) or "-", ex), case=(p, ov, len(hist), hist))
